@@ -42,6 +42,10 @@ def cases_C06(tier, seed):  # noqa: F811
             text = tmpl.replace('%s', ch)
             for opts in ((), (('reindent', True),), (('strip_whitespace', True),)):
                 yield (text, opts)
+    # a comment-only statement behind the last terminator (class of C06:bounded:comment-only-statement-joined-to-previous)
+    for tail in ('-- c\n ', '--+ h\n', '-- c\n-- d\n'):
+        for opts in ((('strip_whitespace', True),), (('reindent', True),)):
+            yield ('select 1;\n' + tail, opts)
     yield from _base_cases_C06(tier, seed)
 
 
